@@ -32,6 +32,7 @@ DEFAULT_CFG = {
     "pub_ctx": True,  # publishes may copy another context variable
     "items_conc": True,  # with-items tasks may have a concurrency limit
     "retry_expr": False,  # retry count / delay may be expressions over vars rc / rd
+    "bad_vars": 0.0,  # probability of a workflow variable whose expression fails when the conductor initialises
 }
 
 
@@ -221,16 +222,20 @@ def wf_ir(draw, c=None):
                         pv[1] = E(["res"], pv[1]["lang"])
             if t.get("retry") and t["retry"].get("when") and "res_" in repr(t["retry"]["when"]["e"]):
                 t["retry"]["when"] = E(["failed"], t["retry"]["when"]["lang"])
+    if c["bad_vars"] and draw(st.floats(0, 1)) < c["bad_vars"]:
+        ir["vars"].append(["bad", E(["ctx_plus", "x", 1], lp(draw))])  # 'init_x' + 1: type error at run time
     if c["output"]:
         ir["output"] = [[v + "_out", E(["ctx", v], lp(draw), draw(st.integers(0, 3)))] for v in POOL]
     return ir
 
 
 @st.composite
-def outcomes(draw, ir, p_fail=0.25, abend=True, per_attempt=3, fixed=False):
+def outcomes(draw, ir, p_fail=0.25, abend=True, per_attempt=3, fixed=False, canceled=False):
     """task -> [[status, code], ...] consumed cyclically per completion of that task."""
     table = {}
     sts = ["failed", "failed", "failed", "timeout", "abandoned"] if abend else ["failed"]
+    if canceled:
+        sts = sts + ["canceled"]
     for nm in ir["tasks"]:
         k = 1 if fixed else draw(st.integers(1, per_attempt))
         row = []
@@ -254,7 +259,7 @@ def choices(draw, max_size=60, hi=255):
 
 
 @st.composite
-def scenario(draw, c=None, flags=None, p_fail=None, abend=True, max_choices=60, fixed_outcomes=False, controls=None):
+def scenario(draw, c=None, flags=None, p_fail=None, abend=True, max_choices=60, fixed_outcomes=False, controls=None, canceled=False):
     ir = draw(wf_ir(c))
     if p_fail is None:
         p_fail = draw(st.sampled_from([0.0, 0.05, 0.1, 0.2, 0.35]))
@@ -265,7 +270,7 @@ def scenario(draw, c=None, flags=None, p_fail=None, abend=True, max_choices=60, 
     return {
         "ir": ir,
         "inputs": {},
-        "outcomes": draw(outcomes(ir, p_fail=p_fail, abend=abend, fixed=fixed_outcomes)),
+        "outcomes": draw(outcomes(ir, p_fail=p_fail, abend=abend, fixed=fixed_outcomes, canceled=canceled)),
         "choices": draw(choices(max_choices)),
         "flags": dict(flags or {}),
         "style": draw(st.integers(0, 3)),
